@@ -32,6 +32,7 @@ extern MPT_STRUCT(node) *mpt_node_clone(const MPT_STRUCT(node) *node)
 		if (meta) {
 			meta->_vptr->unref(meta);
 		}
+		return 0;
 	}
 	if ((tmp = copy->_meta)) {
 		tmp->_vptr->unref(tmp);
